@@ -171,10 +171,21 @@ func (g *egen) tree(depth int) etree {
 	case 3: // ers.Wrap / Wrapf
 		p := g.tree(depth - 1)
 		out := merge("Wrap("+p.desc+")", p)
-		if simrt.Choose(2) == 0 {
+		switch simrt.Choose(3) {
+		case 0:
 			out.err = ers.Wrap(p.err, "annotation")
-		} else {
+		case 1:
 			out.err = ers.Wrapf(p.err, "annotation-%d", 1)
+		default:
+			// the annotation itself wraps an error (%w): that error is part of
+			// the result like any other singly-wrapped constituent
+			g.next++
+			via := &errSentinel{fmt.Sprintf("via-%d", g.next)}
+			out.err = ers.Wrapf(p.err, "annotation-%d: %w", 2, via)
+			out.desc = "Wrapf%w(" + p.desc + ")"
+			if !isNilErr(p.err) {
+				out.inners = append(out.inners, via)
+			}
 		}
 		if !isNilErr(p.err) {
 			out.extras++
